@@ -102,6 +102,12 @@ def run(chk):
             src = ("function pick(bit b) -> int { return 1 + (int) b; }\n@quantum function fill() -> void { %s }\n"
                    "function main() -> void { fill(); fill(); }" % decl)
         progs.append((src, "runtime-sized"))
+    # array fields sized by expressions with side effects or run-dependent values: every shot sizes (or does not size) them for itself
+    for _ in range(60 if chk.thorough else 6):
+        size = rng.choice(["(Dice.roll())", "Dice.roll()", "(1 + Dice.roll())", "Dice.n"])
+        progs.append(("static class Dice { public static int n = 2; public static function roll() -> int { qubit q; h(q); bit b = measure q; echo(\"rolled\"); n = n + 1; if (b == 1b) { return 2; } return 1; } }\n"
+                      "class Buffer { public int[%s] cells; public int k = 0; public constructor() -> Buffer { } }\n"
+                      "function main() -> void { Buffer b = new Buffer(); echo(b.cells); echo(Dice.n); Buffer c = new Buffer(); echo(c.cells); }" % size, "field-size-expr"))
     for _fn, o in load_corpus("C18"):
         progs.append((o["source"], "corpus"))
     lines = []
